@@ -31,12 +31,20 @@ where
   }
 
   fn set_ref_count(&self) {
+    // `connecting`: the source subscription has been started (it is never started twice);
+    // `cancelled`: the last subscriber left before that subscription could be stored
+    let connecting = Arc::new(RwLock::new(false));
+    let cancelled = Arc::new(RwLock::new(false));
     {
       let subscription = Arc::clone(&self.subscription);
+      let cancelled = Arc::clone(&cancelled);
       self.subject.set_on_unsubscribe(move |count| {
         if count == 0 {
-          if let Some(sbsc) = &*subscription.read().unwrap() {
+          let sbsc = subscription.read().unwrap().clone();
+          if let Some(sbsc) = sbsc {
             sbsc.unsubscribe();
+          } else {
+            *cancelled.write().unwrap() = true;
           }
         }
       });
@@ -53,12 +61,17 @@ where
         let sbj_error = subject.clone();
         let sbj_complete = subject.clone();
 
-        let mut subscription = subscription.write().unwrap();
-        if subscription.is_some() {
-          return;
+        {
+          let mut connecting = connecting.write().unwrap();
+          if *connecting {
+            return;
+          }
+          *connecting = true;
         }
 
-        *subscription = Some(source.subscribe(
+        // no lock is held while the source runs: a synchronous source may complete, and the
+        // subscribers may leave, before `subscribe` returns
+        let sbsc = source.subscribe(
           move |x| {
             sbj_next.next(x);
           },
@@ -68,7 +81,11 @@ where
           move || {
             sbj_complete.complete();
           },
-        ));
+        );
+        *subscription.write().unwrap() = Some(sbsc.clone());
+        if *cancelled.read().unwrap() {
+          sbsc.unsubscribe();
+        }
       }
     });
   }
